@@ -1908,3 +1908,9 @@ impl<S: IndexedFull> Repository<S> {
         rewrite_snapshots_and_trees(self, snapshots, opts, tree_opts)
     }
 }
+
+#[cfg(rustic_core_verif)]
+#[allow(missing_docs, unused_imports, dead_code, clippy::all, clippy::pedantic, clippy::nursery)]
+pub mod verif_hooks {
+    use super::*;
+}
